@@ -33,6 +33,18 @@ pub struct Plan {
     pub steps: Vec<Step>,
     /// picks used by final settle phases / twin orders
     pub settle: Vec<u16>,
+    /// selects the actor identities of the editing replicas (0 = actors 1,2,3,..); see ACTOR_LAYOUTS
+    #[serde(default)]
+    pub actors: u16,
+}
+
+/// actor identities per layout: ascending, descending, extremes of u8, sparse, shuffled
+pub const ACTOR_LAYOUTS: [[u8; 5]; 6] = [[1, 2, 3, 4, 5], [5, 4, 3, 2, 1], [0, 255, 128, 1, 254], [255, 0, 9, 250, 3], [10, 20, 30, 40, 50], [3, 1, 2, 0, 4]];
+
+impl Plan {
+    pub fn actor_of(&self, replica: usize) -> u8 {
+        ACTOR_LAYOUTS[idx(self.actors, ACTOR_LAYOUTS.len())][replica % 5]
+    }
 }
 
 /// monotone index mapping: i in 0..65536 -> 0..n
@@ -151,8 +163,8 @@ pub fn plan_strategy(cfg: &PlanCfg) -> BoxedStrategy<Plan> {
     }
     let steps = proptest::collection::vec(step_strategy(&cfg.w), cfg.steps.0..=cfg.steps.1);
     let settle = proptest::collection::vec(any::<u16>(), cfg.settle..=cfg.settle);
-    (cfg.editors.0..=cfg.editors.1, cfg.observers.0..=cfg.observers.1, steps, settle)
-        .prop_map(|(editors, observers, steps, settle)| Plan { editors, observers, steps, settle })
+    (cfg.editors.0..=cfg.editors.1, cfg.observers.0..=cfg.observers.1, steps, settle, any::<u16>())
+        .prop_map(|(editors, observers, steps, settle, actors)| Plan { editors, observers, steps, settle, actors })
         .boxed()
 }
 
@@ -191,6 +203,7 @@ pub fn decode_plan(cfg: &PlanCfg, data: &[u8]) -> Option<Plan> {
     let editors = cfg.editors.0 + r.u8() % (cfg.editors.1 - cfg.editors.0 + 1);
     let observers = cfg.observers.0 + r.u8() % (cfg.observers.1 - cfg.observers.0 + 1);
     let settle: Vec<u16> = (0..cfg.settle).map(|_| r.u16()).collect();
+    let actors = (r.u8() as u16) << 8;
     let w = &cfg.w;
     let table = [w.edit, w.deliver, w.redeliver, w.merge, w.snapshot, w.merge_snapshot, w.save_restore, w.probe];
     let total: u32 = table.iter().sum();
@@ -218,5 +231,5 @@ pub fn decode_plan(cfg: &PlanCfg, data: &[u8]) -> Option<Plan> {
         };
         steps.push(s);
     }
-    Some(Plan { editors, observers, steps, settle })
+    Some(Plan { editors, observers, steps, settle, actors })
 }
